@@ -495,7 +495,7 @@ pub fn run(tier: Tier) -> i32 {
     });
     // literal strings through parse_arg
     let lit_seeds: Vec<(&str, &str)> = vec![
-        ("u8", "255"), ("i8", "-128"), ("bool", "true"), ("[u8; 2]", "[1, 2]"), ("(u8, bool)", "(1, true)"), ("S", "S {a: true, b: 1}"), ("E", "E::C(true, 2)"), ("E", "E::A"),
+        ("u8", "255"), ("i8", "-128"), ("bool", "true"), ("[u8; 2]", "[1, 2]"), ("(u8, bool)", "(1, true)"), ("S", "S {a: true, b: 1}"), ("E", "E::C(true, 2)"), ("E", "E::A"), ("[E; 2]", "[E::C(false, 0), E::B(3)]"), ("(E, S)", "(E::C(true, 1), S {a: false, b: 2})"),
         ("[(u8, bool); 2]", "[(1, true), (2, false)]"), ("[u8; 3]", "[7; 3]"), ("[u8; 2]", "1u8..3u8"), ("u64", "18446744073709551615"), ("()", "()"), ("[S; 1]", "[S {a: false, b: 0}]"),
     ];
     let mut lit_cases: Vec<(String, Vec<u8>)> = vec![];
@@ -523,6 +523,17 @@ pub fn run(tier: Tier) -> i32 {
                 let mut d = lx.clone();
                 d[i].1 = s.to_string();
                 lit_cases.push(("literal-substitute".into(), mk(join(&d, &tail))));
+            }
+            // a component that is an expression instead of a literal (well-typed or not): every number,
+            // Boolean and identifier token wrapped in each expression form
+            let t = lx[i].1.clone();
+            let is_value_token = t.chars().next().map(|c| c.is_ascii_digit() || c == '-').unwrap_or(false) || t == "true" || t == "false";
+            if is_value_token && !is_size_position(&lx, i) {
+                for form in ["(@)", "@ + 0", "0 + @", "@ ^ @", "{ @ }", "@ as u8", "-@", "!@", "if true { @ } else { @ }", "match 0 { _ => @ }", "[@][0]", "(@, 0).0", "@ == @", "@ && true", "@ << 0"] {
+                    let mut d = lx.clone();
+                    d[i].1 = form.replace('@', &t);
+                    lit_cases.push(("literal-expression".into(), mk(join(&d, &tail))));
+                }
             }
         }
     }
@@ -556,7 +567,7 @@ pub fn run(tier: Tier) -> i32 {
         coverage: json!({
             "evaluations": evaluated.load(Ordering::Relaxed),
             "distinct_nontrivial": distinct_errors.lock().unwrap().len() as u64 + outcomes.len() as u64,
-            "rule": "corpus = repository example programs, error examples, documentation code blocks, generated programs of families S/D/P and a hand-written program using every syntactic form; for each: every token-boundary prefix (also with CR-only, CRLF and CR CR LF line endings), every character prefix (every 7th for long files), every single-token deletion, duplication, adjacent swap, every identifier token replaced by every other identifier of the same program, and substitution by each token of an alphabet of keywords / punctuation incl. comment delimiters / identifiers / boundary numbers (big numbers are not placed in array-size, range or constant-expression positions, and `-` is not substituted inside a constant expression, where wrapping subtraction yields a legal but enormous array); all token strings of length <= L over a 37-token alphabet; every range pattern a{suffix}..b{suffix} / ..= over a 14-number boundary alphabet (0, 1, type minima/maxima and their neighbours) x suffix pairs x scrutinee types; all byte strings of length <= 2 over printable ASCII + NUL, 0x80, 0xff, multi-byte characters, CR/LF/TAB, alone and inside a program; the same perturbations of literal strings given to parse_arg; each case runs check + compile of every pub fn + prettify in an isolated worker with a deadline and an address-space limit; distinct_nontrivial = number of distinct (outcome class, perturbation kind) pairs observed",
+            "rule": "corpus = repository example programs, error examples, documentation code blocks, generated programs of families S/D/P and a hand-written program using every syntactic form; for each: every token-boundary prefix (also with CR-only, CRLF and CR CR LF line endings), every character prefix (every 7th for long files), every single-token deletion, duplication, adjacent swap, every identifier token replaced by every other identifier of the same program, and substitution by each token of an alphabet of keywords / punctuation incl. comment delimiters / identifiers / boundary numbers (big numbers are not placed in array-size, range or constant-expression positions, and `-` is not substituted inside a constant expression, where wrapping subtraction yields a legal but enormous array); all token strings of length <= L over a 37-token alphabet; every range pattern a{suffix}..b{suffix} / ..= over a 14-number boundary alphabet (0, 1, type minima/maxima and their neighbours) x suffix pairs x scrutinee types; all byte strings of length <= 2 over printable ASCII + NUL, 0x80, 0xff, multi-byte characters, CR/LF/TAB, alone and inside a program; the same perturbations of literal strings given to parse_arg, plus every value token of a literal wrapped in 15 expression forms (parenthesised, operators, block, cast, if, match, index, field, comparison); each case runs check + compile of every pub fn + prettify in an isolated worker with a deadline and an address-space limit; distinct_nontrivial = number of distinct (outcome class, perturbation kind) pairs observed",
             "samples": [
                 {"kind": cases[1].kind, "origin": cases[1].origin, "text": String::from_utf8_lossy(&cases[1].text)},
                 {"kind": cases[n_frontend / 2].kind, "origin": cases[n_frontend / 2].origin, "text": String::from_utf8_lossy(&cases[n_frontend / 2].text)},
